@@ -736,7 +736,9 @@ class Unit:
                     raise UnitConversionError("Can't convert '%s' to '%s'.",
                                               other, self)
                 else:
-                    return op(factor, ONE)
+                    # compare the scales themselves: their ratio compared to
+                    # one gives the wrong order if `other` is scaled negative
+                    return op(self._equiv, other._equiv)
             msg = "Can't compare a '%s' unit and a '%s' unit."
             raise IncompatibleUnitsError(msg, self.qty_cls, other.qty_cls)
         return NotImplemented
@@ -1547,12 +1549,21 @@ class Quantity(metaclass=QuantityMeta):
     def _compare(self, other: Any, op: CmpOpT) -> bool:
         """Compare self and other using operator op."""
         if isinstance(other, self.__class__):
+            equiv: Optional[Rational]
             if self.unit is other.unit:
-                return op(self.amount, other.amount)
-            equiv = other.equiv_amount(self.unit)
+                equiv = other.amount
+            else:
+                equiv = other.equiv_amount(self.unit)
             if equiv is None:
                 raise UnitConversionError("Can't convert '%s' to '%s'.",
                                           other.unit, self.unit)
+            # noinspection PyProtectedMember
+            scale = self.unit._equiv
+            if (self.__class__.ref_unit is not None and scale is not None
+                    and scale < 0):
+                # amounts in terms of a negatively scaled unit are ordered
+                # the other way round than the quantities they measure
+                return op(equiv, self.amount)
             return op(self.amount, equiv)
         elif isinstance(other, Quantity):
             raise IncompatibleUnitsError("Can't compare a '%s' and a '%s'.",
